@@ -398,18 +398,32 @@ Section Main.
 
   (* ---------------------------------------------------------------------------------------------- *)
   (* primary: atoms *)
-  Lemma prim_ident : forall f d (q : bool) n ts, cont8 (cur ts) = false ->
+  Lemma plain_not_niladic : forall n, plain_name n = true -> is_niladic n = false.
+  Proof.
+    intros n H. unfold plain_name in H. apply andb_prop in H. destruct H as [_ H]. rewrite forallb_forall in H.
+    assert (Hw : forall w, In w special_words -> String.eqb (upper n) (upper w) = false).
+    { intros w Hw. specialize (H w Hw). apply negb_true_iff in H. exact H. }
+    unfold is_niladic, niladic_names. cbn [existsb].
+    assert (Hs : forall w, In w niladic_names -> String.eqb (upper n) w = false).
+    { intros w Hi. unfold niladic_names in Hi. cbn [In] in Hi.
+      destruct Hi as [<-|[<-|[<-|[<-|[<-|[]]]]]];
+        match goal with |- String.eqb _ ?w = false => exact (Hw w ltac:(unfold special_words; cbn [In]; tauto)) end. }
+    rewrite !Hs by (unfold niladic_names; cbn [In]; tauto). reflexivity.
+  Qed.
+
+  Lemma prim_ident : forall f d (q : bool) n ts, cont8 (cur ts) = false -> plain_name n = true ->
       r7 f d (Tk (if q then TyDQuoted else TyIdent) n :: ts) = Val (GIdent n "", ts).
   Proof.
-    intros f d q n ts H. unfold cont8 in H. split_or H.
-    unfold r7, primary. destruct q; cbn; rewrite H, Ho1; cbn [bind]; rewrite Ho0; reflexivity.
+    intros f d q n ts H Hn. unfold cont8 in H. split_or H. pose proof (plain_not_niladic n Hn) as Hnil.
+    unfold r7, primary. destruct q; cbn [cur advance peek isT ty tty_eqb tty_code N.eqb Pos.eqb andb orb negb lit];
+      rewrite H; cbn [andb negb]; rewrite ?Hnil, ?andb_false_r; rewrite Ho4; cbn [bind]; rewrite Ho3; reflexivity.
   Qed.
 
   Lemma prim_qident : forall f d t n ts, cont8 (cur ts) = false ->
       r7 f d (Tk TyIdent t :: Tk TyPeriod "." :: Tk TyIdent n :: ts) = Val (GIdent n t, ts).
   Proof.
     intros f d t n ts H. unfold cont8 in H. split_or H.
-    unfold r7, primary. cbn. rewrite Ho0. reflexivity.
+    unfold r7, primary. cbn. rewrite Ho3. reflexivity.
   Qed.
 
   Lemma prim_num : forall f d s ts, r7 f d (Tk TyNumber s :: ts) = Val (GLit (Some s) (num_type s), ts).
@@ -469,7 +483,7 @@ Section Main.
     unfold r7, primary. cbn. subst toks. cbn [app cur].
     rewrite (starts_not t TySelect Hst eq_refl), (starts_not t TyWith Hst eq_refl). cbn [orb].
     rewrite PE_S. unfold expr_body. destruct (Nat.ltb_spec md (S d)); [lia|].
-    unfold r0 in Hr. cbn [app] in Hr. rewrite Hr. cbn. rewrite Ho0. reflexivity.
+    unfold r0 in Hr. cbn [app] in Hr. rewrite Hr. cbn. rewrite Ho3. reflexivity.
   Qed.
 
   (* ---------------------------------------------------------------------------------------------- *)
@@ -568,7 +582,7 @@ Section Main.
       parse_data_type (type_toks t ++ rest) = Val (type_str t, rest).
   Proof.
     intros [n a] rest Ha Hc. cbn in Ha. subst a. unfold cont8 in Hc. split_or Hc.
-    unfold parse_data_type, type_toks, type_str. cbn. rewrite Hc. cbn. rewrite Ho0. reflexivity.
+    unfold parse_data_type, type_toks, type_str. cbn. rewrite Hc. cbn. rewrite Ho3. reflexivity.
   Qed.
 
   Lemma prim_cast : forall f d ts x t rest,
@@ -684,7 +698,7 @@ Section Main.
   Lemma All_ident : forall q n, All (MIdent q n).
   Proof.
     intros q n. start_case. intros R HK. cbn [Kg] in HK. inversion HK; subst R. cbn [rg body app].
-    apply prim_ident. split_stops Hst. assumption.
+    apply prim_ident; [split_stops Hst; assumption|exact Href].
   Qed.
   Lemma All_qident : forall t n, All (MQIdent t n).
   Proof.
